@@ -116,6 +116,8 @@ func checkClient(c clientCase) error {
 		case "unknownkey-emptysecret":
 			t.KeyName = append(ref.Labels{[]byte("no")}, keyL...)
 			secret = nil
+		case "ancestorkey":
+			t.KeyName = keyL[1:] // signed with the right secret under the name of the key's parent domain (k3. -> the root)
 		}
 		var reply []byte
 		if variant == "unsigned" {
@@ -177,7 +179,7 @@ func genClient(t *rapid.T) clientCase {
 		}
 		s.Question = s.Question[:1]
 		c.Queries = append(c.Queries, s)
-		c.Reply = append(c.Reply, rapid.SampledFrom([]string{"good", "good", "good", "tampered", "norequestmac", "late", "wrongsecret", "unknownkey-emptysecret", "unsigned"}).Draw(t, "reply"))
+		c.Reply = append(c.Reply, rapid.SampledFrom([]string{"good", "good", "good", "tampered", "norequestmac", "late", "wrongsecret", "unknownkey-emptysecret", "unsigned", "ancestorkey"}).Draw(t, "reply"))
 	}
 	c.Key = rapid.IntRange(0, len(e2eKeys)-1).Draw(t, "key")
 	c.Fudge = rapid.Uint16Range(300, 65535).Draw(t, "fudge")
